@@ -63,6 +63,7 @@ class Cfg(object):
         self.refine_ms = 6000          # NRA budget for refining a counterexample found under the UF abstraction
         self.true_first = True
         self.tactic = None
+        self.nra_first_ms = 0          # forked queries: try a fresh SolverFor('QF_NRA') for this long before the incremental solver
         for k, v in kw.items():
             if not hasattr(self, k):
                 raise KeyError(k)
@@ -172,8 +173,24 @@ class Path(object):
                     extra = []
                 else:
                     s2 = self.solver
-                s2.set("timeout", int(self.cfg.qtimeout_ms))
-                r = str(s2.check(*extra))
+                r = 'unknown'
+                if not self.cfg.logic and self.cfg.nra_first_ms:
+                    # first a fresh solver built for QF_NRA (nlsat on the whole goal): measured 0.1 s where the incremental default
+                    # core needs 12 s or answers unknown, on the sqrt-laden goals of trsbox; the incremental solver is the fallback
+                    try:
+                        s3 = z3.SolverFor('QF_NRA')
+                        s3.add(self.solver.assertions())
+                        for e in extra:
+                            s3.add(e)
+                        s3.set("timeout", int(self.cfg.nra_first_ms))
+                        r = str(s3.check())
+                        if r in ('sat', 'unsat'):
+                            s2 = s3
+                    except z3.Z3Exception:
+                        r = 'unknown'
+                if r == 'unknown':
+                    s2.set("timeout", int(self.cfg.qtimeout_ms))
+                    r = str(s2.check(*extra))
                 vals = None
                 if r == 'sat' and eval_terms is not None:
                     m = s2.model()
@@ -189,7 +206,7 @@ class Path(object):
             finally:
                 os._exit(0)
         os.close(wfd)
-        deadline = time.time() + 1.5 * self.cfg.qtimeout_ms / 1000.0 + 1.0
+        deadline = time.time() + 1.5 * self.cfg.qtimeout_ms / 1000.0 + 1.0 + 1.2 * self.cfg.nra_first_ms / 1000.0
         buf = b''
         res = None
         try:
